@@ -28,6 +28,10 @@ class Engine(object):
         self.spec_funcs = {}
         self.trusted = []
         self.class_hooks = {}
+        self.homs = {}
+        self.ghosts = {}
+        self.hom_templates = {}
+        self._classinfo = None
         self.install_spec_funcs()
         files = contract_files
         if files is None:
@@ -46,6 +50,8 @@ class Engine(object):
         self.fields.update(getattr(mod, "FIELDS", {}))
         self.default_list.update(getattr(mod, "DEFAULT_LIST", {}))
         self.trusted.extend(getattr(mod, "TRUSTED", []))
+        self.homs.update(getattr(mod, "HOMS", {}))
+        self.ghosts.update(getattr(mod, "GHOSTS", {}))
         if hasattr(mod, "install"):
             mod.install(self)
 
@@ -78,9 +84,69 @@ class Engine(object):
                 return r[1].name + "." + r[2]
         return None
 
+    def side_axioms(self, terms):
+        """class-hierarchy facts for the isa_* / cls terms of one VC, from the real class table"""
+        from .terms import And, Implies, Not, Or, subterms
+
+        seen = {}
+        for t in terms:
+            subterms(t, seen)
+        per_obj = {}
+        clsterms = {}
+        for t in seen.values():
+            if t.op.startswith("isa_"):
+                per_obj.setdefault(str(t.args[0]), (t.args[0], {}))[1][t.op[4:].replace("__", ".")] = t
+            elif t.op == "cls":
+                clsterms[str(t.args[0])] = t
+        if not per_obj:
+            return []
+        ci = self.classinfo()
+        out = []
+        for k, (obj, preds) in per_obj.items():
+            qs = [q for q in preds if q in ci.desc]
+            for i, a in enumerate(qs):
+                for b in qs[i + 1 :]:
+                    rel = ci.relation(a, b)
+                    if rel == "subset":
+                        out.append(Implies(preds[a], preds[b]))
+                    elif rel == "superset":
+                        out.append(Implies(preds[b], preds[a]))
+                    elif rel == "disjoint":
+                        out.append(Not(And(preds[a], preds[b])))
+            if k in clsterms:
+                for q in qs:
+                    ids = ci.ids(q)
+                    if len(ids) <= 800:
+                        out.append(Eq(preds[q], Or(*[Eq(clsterms[k], I(i)) for i in ids])))
+        return out
+
     # ---------------------------------------------------------------- hooks
+    def classinfo(self):
+        if self._classinfo is None:
+            from .classes import ClassInfo
+
+            self._classinfo = ClassInfo(self.repo.root)
+        return self._classinfo
+
     def isinstance_hook(self, run, st, obj, cls, node):
-        raise Unsupported("isinstance not configured")
+        from .terms import And, Not, Or
+
+        classes = cls.items if isinstance(cls, TupleV) else [cls]
+        guard = None
+        if isinstance(obj, OptV):
+            guard = Not(obj.isnone)
+            obj = obj.val
+        if not isinstance(obj, ObjV):
+            raise Unsupported("isinstance of %r" % (obj,))
+        outs = []
+        for c in classes:
+            if not isinstance(c, ClassV):
+                raise Unsupported("isinstance with non-class")
+            nm = "isa_" + c.qual.replace(".", "__")
+            UFS[nm] = ([REF], BOOL)
+            outs.append(App(nm, (obj.term,), BOOL))
+        r = Or(*outs)
+        return And(guard, r) if guard is not None else r
 
     def construct_hook(self, run, st, cv, args, kwargs, node):
         # generic: allocate a fresh object and run __init__ inline
@@ -110,6 +176,12 @@ class Engine(object):
 
             return f
 
+        def sf_irange(run, st, args, node):
+            a, b = args
+            return ListV(run.new_cell(st, App("irange", (a, b), Seq(INT))), Type("int"))
+
+        self.spec_funcs["irange"] = sf_irange
+        UFS["irange"] = ([INT, INT], Seq(INT))
         self.spec_funcs["J"] = sf_J
         self.spec_funcs["isspace"] = pred("isspace")
         self.spec_funcs["isdigit"] = pred("isdigit")
@@ -134,11 +206,11 @@ class Engine(object):
 
 
 def discharge_one(job):
-    name, assumptions, goal, timeout, kind = job
+    name, assumptions, goal, timeout, kind, templates, ufs, decls = job
     t0 = time.time()
     try:
-        inst = lemmas.instantiate(assumptions + [goal])
-        query, consts = solver.build_query([], assumptions + inst, goal, UFS)
+        inst = lemmas.instantiate(assumptions + [goal], templates=templates)
+        query, consts = solver.build_query(decls, assumptions + inst, goal, ufs)
         r = solver.solve(query, consts, timeout=timeout, want_model=True)
         r["name"] = name
         r["kind"] = kind
@@ -152,8 +224,16 @@ def discharge_one(job):
         return {"name": name, "kind": kind, "verdict": "error", "error": traceback.format_exc(), "wall": time.time() - t0, "log": []}
 
 
-def discharge(obls, timeout=10, workers=None):
-    jobs = [(o.name, o.assumptions, o.goal, timeout, o.kind) for o in obls]
+VAL_DECL = "(declare-datatypes ((Val 0)) (((VInt (vint Int)) (VStr (vstr String)) (VNone))))"
+
+
+def discharge(obls, timeout=10, workers=None, engine=None):
+    templates = dict(engine.hom_templates) if engine is not None else {}
+    ufs = dict(UFS)
+    jobs = []
+    for o in obls:
+        extra = engine.side_axioms(o.assumptions + [o.goal]) if engine is not None else []
+        jobs.append((o.name, o.assumptions + extra, o.goal, timeout, o.kind, templates, ufs, [VAL_DECL]))
     workers = workers or min(16, os.cpu_count() or 4)
     out = []
     if not jobs:
